@@ -520,10 +520,22 @@ class _ReBenchDB(_ConcretePersistence):
             self._last_send = time()
 
     def _send_data_and_empty_cache(self):
-        if self._cache:
-            success, _ = self._send_data(self._cache)
-            if success:
-                self._cache = {}
+        # Take the cached data points out under the lock: data points that other
+        # benchmark threads record while the request is in flight go into a fresh
+        # cache instead of being dropped when this one is emptied.
+        with self._lock:
+            cache = self._cache
+            self._cache = {}
+        if not cache:
+            return
+
+        success, _ = self._send_data(cache)
+        if not success:
+            with self._lock:
+                # keep the unsent data points for the next attempt, before the newer ones
+                for run_id, data_points in self._cache.items():
+                    cache.setdefault(run_id, []).extend(data_points)
+                self._cache = cache
 
     def convert_data_to_api_format(self, data):
         num_measurements = 0
@@ -583,8 +595,7 @@ class _ReBenchDB(_ConcretePersistence):
             'source': determine_source_details(self._configurator)}, num_measurements)
 
     def close(self):
-        with self._lock:
-            self._send_data_and_empty_cache()
+        self._send_data_and_empty_cache()
 
 
 class _ProfileReBenchDB(_ReBenchDB):
